@@ -389,3 +389,279 @@ def random_cases(seed, n_cases, max_ins, coarse_share=0.25, ez_share=0.15):
                       for _ in range(k)), key=lambda x: sk.slots.index(x[0]))
         made += 1
         yield {'sk': s, 'ins': ins}
+
+
+# ==================================================================================================
+# Round-trip material for C08: chemically readable skeletons, descriptor stacks, complete strings
+# ==================================================================================================
+RT_SYMS = ('', '=', '.', '#', '-')          # orders 1 2 0 3 1  (the statement of C08 covers orders 0-3)
+
+# atomistic skeletons pysmiles reads (connected, no wildcard, no explicit [H] next to heavy atoms)
+RT_ATOMISTIC = [
+    'a:C', 'a:C a:C', 'a:C a:O a:C', 'a:C b:= a:C', 'a:C b:# a:C', 'a:C b:- a:C',
+    'a:C a:C ( a:C ) a:C ( b:= a:O ) a:O a:C',
+    'a:c r:1 a:c a:c a:c a:c a:c r:1',
+    'a:C r:1 a:C a:C r:1', 'a:C r:=1 a:C a:C r:=1', 'a:C r:=1 a:C a:C r:1', 'a:C r:1 a:C a:C r:=1',
+    'a:C r:%12 a:C a:C r:%12', 'a:C r:1 r:2 a:C a:C r:1 a:C r:2',
+    'A:NH3+ a:C', 'A:O- a:C ( b:= a:O ) a:C', 'a:Cl a:C a:Br', 'A:CH2 A:CH2',
+    'a:c r:1 a:c a:c a:n a:c a:c r:1', 'a:c r:1 a:c a:c A:nH a:c r:1', 'a:N ( a:C ) a:C',
+    'a:S ( b:= a:O ) ( b:= a:O ) a:C', 'A:H', 'A:Si ( a:C ) a:C', 'a:C ( a:F ) ( a:Cl ) a:Br',
+    'a:c r:1 a:c a:c ( a:C ) a:c a:c a:c r:1', 'a:C a:C ( a:C ( a:O ) ) a:N', 'A:13CH3 a:C', 'a:O b:= a:C a:O',
+    'a:N b:# a:C a:C',
+]
+# coarse skeletons read_cgsmiles reads (bond symbol BEFORE '(' ; no trailing %nn, no |n, no annotations)
+RT_COARSE = [
+    'A:#A', 'A:#A A:#B', 'A:#TC4 A:#TC4', 'A:#A b:= A:#B', 'A:#A b:. A:#B', 'A:#A b:# A:#B A:#C',
+    'A:#A ( A:#B ) A:#C', 'A:#A b:= ( A:#B ) A:#C', 'A:#A ( A:#B ) b:= A:#C', 'A:#A ( A:#B ) ( A:#C ) A:#D',
+    'A:#A r:1 A:#B A:#C r:1', 'A:#A r:=1 A:#B A:#C r:1', 'A:#A r:%12 A:#B A:#C r:%12 A:#D',
+    'A:#A r:1 A:#B ( A:#C ) A:#D r:1', 'A:#A ( A:#B A:#C ) A:#D A:#E', 'A:#A b:- A:#B',
+]
+
+
+def rt_alphabet_full():
+    return [(k, l, s) for s in RT_SYMS for l in LABELS for k in KINDS]
+
+
+def rt_alphabet_medium():
+    return [('$', '', ''), ('$', 'A', '='), ('>', '', '.'), ('<', '1a', '#'), ('!', '', '-'), ('>', 'A', ''),
+            ('<', '', '='), ('!', 'A', '.'), ('$', '1a', '#'), ('$', '', '.')]
+
+
+def rt_alphabet_small():
+    return [('$', '', ''), ('$', 'A', '='), ('>', '', '.'), ('<', '1a', '#'), ('!', '', '-')]
+
+
+def stacks_on_one_slot(skeleton, k, alphabet, slots=None):
+    """k descriptors on one slot, every sequence over the alphabet."""
+    for slot in (slots if slots is not None else parse(skeleton).slots):
+        for ds in itertools.product(alphabet, repeat=k):
+            yield [[slot] + list(d) for d in ds]
+
+
+# ------------------------------------------------------------------------------------------ complete strings
+# atomistic fragment library for complete strings: (skeleton, [(slot, free valence of the atom)...])
+AA_LIB = [
+    ('a:C a:C', [(0, 3), (1, 3)]),
+    ('a:C a:O a:C', [(0, 3), (2, 3)]),
+    ('a:C a:C ( a:C ) a:C ( b:= a:O ) a:O a:C', [(0, 3), (1, 1), (11, 3)]),
+    ('a:c r:1 a:c a:c a:c a:c a:c r:1', [(1, 1), (2, 1), (4, 1)]),
+    ('a:C r:1 a:C a:C r:1', [(1, 2), (2, 2), (3, 2)]),
+    ('a:N ( a:C ) a:C', [(0, 1), (2, 3), (4, 3)]),
+    ('A:NH2+ ( a:C ) a:C', [(2, 3), (4, 3)]),
+    ('a:C b:= a:C', [(0, 2), (2, 2)]),
+    ('a:C ( b:= a:O ) A:O-', [(0, 1)]),
+    ('a:C a:C a:C', [(0, 3), (1, 2), (2, 3)]),
+    ('a:Cl a:C a:C', [(1, 2), (2, 3)]),
+]
+ORDER_SYM = {1: '', 2: '=', 3: '#', 0: '.'}
+
+# graph shapes: (template over node names, [(u, v, number of bonds)], number of nodes)
+GRAPH_SHAPES = [
+    ('{{[#{0}][#{1}]}}', [(0, 1, 1)], 2),
+    ('{{[#{0}][#{1}][#{2}]}}', [(0, 1, 1), (1, 2, 1)], 3),
+    ('{{[#{0}]([#{1}])[#{2}]}}', [(0, 1, 1), (0, 2, 1)], 3),
+    ('{{[#{0}]1[#{1}][#{2}]1}}', [(0, 1, 1), (1, 2, 1), (0, 2, 1)], 3),
+    ('{{[#{0}]=[#{1}]}}', [(0, 1, 2)], 2),
+    ('{{[#{0}]=([#{1}])[#{2}]}}', [(0, 1, 2), (0, 2, 1)], 3),
+    ('{{[#{0}]([#{1}])=[#{2}]}}', [(0, 1, 1), (0, 2, 2)], 3),
+    ('{{[#{0}]=1[#{1}][#{2}]1}}', [(0, 1, 1), (1, 2, 1), (0, 2, 2)], 3),
+    ('{{[#{0}][#{1}].[#V]}}', [(0, 1, 1)], 2),
+    ('{{[#V].[#{0}][#{1}]}}', [(0, 1, 1)], 2),
+    ('{{[#{0}]#[#{1}]}}', [(0, 1, 3)], 2),
+    ('{{[#{0}][#{1}]([#{2}])[#{3}]}}', [(0, 1, 1), (1, 2, 1), (1, 3, 1)], 4),
+    ('{{[#{0}]1[#{1}][#{2}][#{3}]1}}', [(0, 1, 1), (1, 2, 1), (2, 3, 1), (0, 3, 1)], 4),
+    ('{{[#{0}][#{1}]=([#{2}][#{3}])[#{4}]}}', [(0, 1, 1), (1, 2, 2), (2, 3, 1), (1, 4, 1)], 5),
+]
+KIND_SCHEMES = [('$', '$'), ('>', '<'), ('<', '>'), ('!', '!')]
+
+
+def _label(n):
+    return 'abcdefghijklmnopqrstuvwxyz'[n % 26] + (str(n // 26) if n >= 26 else '')
+
+
+def atomistic_layer(names, edges, lib_rot=0, scheme=0, want_order=1, site_off=0, leading=False, label0=0):
+    """Atomistic fragment definitions for a graph whose nodes (unique names) are joined by `edges`
+    [(u, v, n_bonds)]: every bond gets its own uniquely labelled descriptor pair, so the resolution is
+    unambiguous whatever the order of atoms or descriptors.  Returns {name: fragment text} or None."""
+    n = len(names)
+    need = [0] * n
+    for u, v, m in edges:
+        need[u] += m
+        need[v] += m
+    frags, caps, ins = [], [], [[] for _ in range(n)]
+    for i in range(n):
+        for t in range(len(AA_LIB)):
+            sk, sites = AA_LIB[(lib_rot + i + t) % len(AA_LIB)]
+            if sum(c for _, c in sites) >= need[i]:
+                break
+        else:
+            return None
+        frags.append(sk)
+        caps.append([list(s) for s in sites])
+    kl, kr = KIND_SCHEMES[scheme % 4]
+    lab = label0
+
+    def pick(i, o, squash):
+        sites = caps[i]
+        for t in range(len(sites)):
+            s = sites[(site_off + t) % len(sites)]
+            # squash only between methyl-like carbons (free valence 3): the merged atom then has two neighbours
+            if s[1] >= o and (not squash or s[1] == 3):
+                return s
+        return None
+
+    for u, v, m in edges:
+        for j in range(m):
+            squash = kl == '!'
+            done = False
+            for o in ([want_order, 1] if want_order != 1 else [1]):
+                if squash and o != 1:
+                    continue
+                su, sv = pick(u, o, squash), pick(v, o, squash)
+                if su is None or sv is None:
+                    continue
+                if squash:
+                    su[1] = 0
+                    sv[1] = 0
+                else:
+                    su[1] -= o
+                    sv[1] -= o
+                L = _label(lab)
+                lab += 1
+                ins[u].append([su[0], kl, L, ORDER_SYM[o]])
+                ins[v].append([sv[0], kr, L, ORDER_SYM[o]])
+                done = True
+                break
+            if not done:
+                return None
+    out = {}
+    for i in range(n):
+        these = ins[i]
+        if leading:
+            # a descriptor on the first atom (slot 0, an atom token) may be written as a leading descriptor
+            these = [[-1] + d[1:] if d[0] == 0 and parse(frags[i]).tokens[0][0] in 'aA' else d for d in these]
+        these = sorted(these, key=lambda d: d[0])
+        out[names[i]] = render(frags[i], these)[0]
+    return out
+
+
+def two_level_strings():
+    """Complete two-level strings {graph}.{atomistic fragments}: unique fragment per node, unique label per bond."""
+    for si, (tmpl, edges, n) in enumerate(GRAPH_SHAPES):
+        names = ['F%d' % i for i in range(n)]
+        for lib_rot in range(0, len(AA_LIB), 2):
+            for scheme in range(4):
+                for want in (1, 2, 3):
+                    for site_off in (0, 1):
+                        layer = atomistic_layer(names, edges, lib_rot, scheme, want, site_off,
+                                                leading=(site_off == 1))
+                        if layer is None:
+                            continue
+                        yield (tmpl.format(*names) + '.{' + ','.join('#%s=%s' % (k, v) for k, v in layer.items()) + '}',
+                               True)
+
+
+# coarse fragments for the middle level: (skeleton template over node names, internal edges, node count)
+COARSE_INNER = [
+    ('A:#{0}', [], 1),
+    ('A:#{0} A:#{1}', [(0, 1, 1)], 2),
+    ('A:#{0} b:= A:#{1}', [(0, 1, 2)], 2),
+    ('A:#{0} A:#{1} A:#{2}', [(0, 1, 1), (1, 2, 1)], 3),
+    ('A:#{0} ( A:#{1} ) A:#{2}', [(0, 1, 1), (0, 2, 1)], 3),
+    ('A:#{0} r:1 A:#{1} A:#{2} r:1', [(0, 1, 1), (1, 2, 1), (0, 2, 1)], 3),
+    ('A:#{0} b:= ( A:#{1} ) A:#{2}', [(0, 1, 2), (0, 2, 1)], 3),
+]
+
+
+def coarse_layer(super_edges, n_super, inner_rot=0, scheme=0, want_order=1, node_off=0):
+    """Middle level: one coarse fragment per super node.  Returns (fragment texts {X_i: text}, level-1 node
+    names, level-1 edges [(a, b, n_bonds)]) -- the level-1 graph the atomistic layer has to realise."""
+    groups, sk_of, names, l1_edges = [], [], [], []
+    for i in range(n_super):
+        tmpl, inner, k = COARSE_INNER[(inner_rot + i) % len(COARSE_INNER)]
+        ids = list(range(len(names), len(names) + k))
+        names.extend('N%d' % j for j in ids)
+        groups.append(ids)
+        sk_of.append(tmpl.format(*['N%d' % j for j in ids]))
+        l1_edges.extend((ids[a], ids[b], m) for a, b, m in inner)
+    kl, kr = KIND_SCHEMES[scheme % 3]      # no squash between coarse nodes
+    ins = [[] for _ in range(n_super)]
+    lab = 0
+    used_pairs = set()
+    for u, v, m in super_edges:
+        for j in range(m):
+            # choose the level-1 nodes carrying this connection (distinct pairs for parallel connections)
+            for t in range(len(groups[u]) * len(groups[v])):
+                a = groups[u][(node_off + j + t) % len(groups[u])]
+                b = groups[v][(node_off + t // len(groups[u])) % len(groups[v])]
+                if (a, b) not in used_pairs:
+                    break
+            else:
+                return None
+            if (a, b) in used_pairs:
+                return None
+            used_pairs.add((a, b))
+            o = want_order
+            L = _label(lab) + 'c'
+            lab += 1
+            slot_a = parse(sk_of[u]).atoms[groups[u].index(a)]
+            slot_b = parse(sk_of[v]).atoms[groups[v].index(b)]
+            ins[u].append([slot_a, kl, L, ORDER_SYM[o]])
+            ins[v].append([slot_b, kr, L, ORDER_SYM[o]])
+            l1_edges.append((a, b, o))
+    texts = {}
+    for i in range(n_super):
+        texts['X%d' % i] = render(sk_of[i], sorted(ins[i], key=lambda d: d[0]))[0]
+    return texts, names, l1_edges
+
+
+def multi_level_strings():
+    """Three-level strings {super graph}.{coarse fragments}.{atomistic fragments} and two-level strings whose
+    last level is coarse (last_all_atom False)."""
+    for si, (tmpl, edges, n) in enumerate(GRAPH_SHAPES[:9]):
+        xs = ['X%d' % i for i in range(n)]
+        for inner_rot in range(len(COARSE_INNER)):
+            for scheme in range(3):
+                for want in (1, 2):
+                    for node_off in (0, 1):
+                        cl = coarse_layer(edges, n, inner_rot, scheme, want, node_off)
+                        if cl is None:
+                            continue
+                        texts, names, l1_edges = cl
+                        head = tmpl.format(*xs) + '.{' + ','.join('#%s=%s' % kv for kv in texts.items()) + '}'
+                        yield head, False
+                        layer = atomistic_layer(names, l1_edges, lib_rot=inner_rot + si, scheme=scheme,
+                                                want_order=1 + (node_off + want) % 3, site_off=node_off, label0=40)
+                        if layer is not None:
+                            yield head + '.{' + ','.join('#%s=%s' % kv for kv in layer.items()) + '}', True
+
+
+CLASSIC_STRINGS = [
+    ('{[#OH][#PEO]|3[#OH]}.{#OH=[$]O,#PEO=[$]COC[$]}', True),
+    ('{[#PEO]1[#PEO]|4[#PEO]1}.{#PEO=[$]COC[$]}', True),
+    ('{[#PMA]([#PEO]|3)|2}.{#PMA=[>]CC[<](C(=O)OC[$]),#PEO=[$]COC[$]}', True),
+    ('{[#SC3]=[#SC3]}.{#SC3=[$]CCC[$]}', True),
+    ('{[#A]#[#A]}.{#A=[$]CCC[$]CC[$]}', True),
+    ('{[#SP4r]1.2[#SP4r].3[#SP1r]1.[#TC4]23}.{#SP4r=OC[$]C[$]O,#SP1r=[$]OC[$]CO}', True),
+    ('{[#SC4]1[#TC5][#TC5]1}.{#SC4=Cc(c[!])c[!],#TC5=[!]ccc[!]}', True),
+    ('{[#PS]|3}.{#PS=[>]CC[<]c1ccccc1}', True),
+    ('{[#PEO][#PMMA][#PEO][#PMMA]}.{#PEO=[>]COC[<],#PMMA=[>]CC(C)[<]C(=O)OC}', True),
+    ('{[#TC5]1[#TC5][#TC5]1}.{#TC5=[$]cc[$]}', True),
+    ('{[#A][#B]}.{#A=CC=[$],#B=[$]=CCC}', True),
+    ('{[#mPEG]|2}.{#mPEG=[$][#PMA][$]([#PEG]|3)}.{#PMA=[<]CC[>]C(=O)OC[$],#PEG=[$]COC[$]}', True),
+    ('{[#X][#Y]}.{#X=[#A][#B][$],#Y=[$][#B][#C]}', False),
+    ('{[#X]=[#Y]}.{#X=[$a][#A][#B][$b],#Y=[$b][#B][#C][$a]}', False),
+    ('{[#X]([#Y])[#Y]}.{#X=[>][#A][>],#Y=[<][#B]=[#C]}.{#A=[$]CC[$],#B=[$]C[$]=[$],#C=[$]=CO}', True),
+    ('{[#BENZ]}.{#BENZ=c1ccccc1}', True),
+    ('{[#A][#B]}.{#A=[NH3+]C[$],#B=[$]CC(=O)[O-]}', True),
+    ('{[#A]([#B])([#B])[#B]}.{#A=[$]C([$])([$])Cl,#B=[$]C#N}', True),
+]
+
+
+def complete_strings(tier):
+    """(string, last_all_atom) pairs: classics first, then the by-construction designs."""
+    seen = set()
+    for s in itertools.chain(CLASSIC_STRINGS, two_level_strings(), multi_level_strings()):
+        if s[0] not in seen:
+            seen.add(s[0])
+            yield s
